@@ -669,18 +669,161 @@ def analyse(code, pairs):
                       'code_steps_interpreted': len(step_cache), 'flags': len(code.flags)}
 
 
+# ---- X19: the substitution loop and the rewrite chain of the resolver ----------------------------------------------
+# IEEE 1800-2017 22.5.1: `` delimits tokens without introducing white space; `" is a quote in the expansion; `\`" is \";
+# a backslash-newline continues the body on the next line (the newline stays).
+REWRITES = {'``': '', '`"': '"', '`\\`"': '\\"', '\\\n': '\n'}
+REWRITES_OPTIONAL = {'\\\r\n': '\r\n', '\\\r': '\r'}
+
+
+def _strip(e):
+    while isinstance(e, dict) and (e.get('k') == 'ref' or (e.get('k') == 'unary' and e['op'] == '*')):
+        e = e['e']
+    return e
+
+
+def _chain(e, run, fns, depth=0):
+    """`RUN.replace(a, b).replace(c, d)...` (possibly inside a private helper taking the run) -> [(a, b), ...] in
+    application order, or None"""
+    e = _strip(e)
+    pairs = []
+    while isinstance(e, dict) and e.get('k') == 'mcall':
+        if e['m'] == 'replace' and len(e['args']) == 2:
+            a, b = sx.lit_str(_strip(e['args'][0])), sx.lit_str(_strip(e['args'][1]))
+            if a is None or b is None:
+                return None
+            pairs.append((a, b))
+        elif e['m'] in ('as_str', 'to_string', 'clone', 'to_owned', 'as_ref') and not e['args']:
+            pass
+        else:
+            return None
+        e = _strip(e['recv'])
+    if sx.is_path(e, run):
+        return list(reversed(pairs))
+    if depth == 0 and isinstance(e, dict) and e.get('k') == 'call' and sx.is_path(e['f']) and e['f']['p'] in fns and len(e['args']) == 1 \
+            and sx.is_path(_strip(e['args'][0]), run):
+        h = fns[e['f']['p']]
+        ps = [q['pat']['n'] for q in h['sig']['params'] if q.get('k') == 'typed' and q['pat'].get('k') == 'ident']
+        st = h['body']['stmts']
+        if len(ps) == 1 and len(st) == 1 and st[0]['k'] == 'expr' and not st[0].get('semi'):
+            inner = _chain(st[0]['e'], ps[0], fns, 1)
+            if inner is not None:
+                return inner + list(reversed(pairs))
+    return None
+
+
+def run_subst(ctx, pp, res, tok_name):
+    r = RuleResult('X19', 'macro resolver: each run is replaced by the actual argument bound to it or appended after the 22.5.1 rewrites, in order')
+    if len(res) != 1 or tok_name is None:
+        r.undecided('resolver', pp.where(1), 'resolver / tokeniser not uniquely identified')
+        return r
+    rname, rf = res[0]
+    W = lambda n: pp.where(n.get('l') or rf['l'])
+    loops = [n for n in sx.walk(rf['body']) if n.get('k') == 'for' and any(
+        c.get('k') == 'call' and sx.is_path(c['f'], tok_name) for c in sx.walk(n['e']))]
+    if len(loops) != 1 or loops[0]['pat'].get('k') != 'ident':
+        r.undecided('%s:loop' % rname, pp.where(rf['l']), '%d loops over the tokeniser result' % len(loops))
+        return r
+    lp = loops[0]
+    run = lp['pat']['n']
+    body = lp['body']['stmts']
+    r.inst('%s:loop' % rname, {'loop_over': sx.render(lp['e'])[:50], 'run_variable': run})
+
+    def appends(node):
+        return [n for n in sx.walk(node) if n.get('k') == 'mcall' and n['m'] in ('push_str', 'push') and len(n['args']) == 1 and sx.is_path(n['recv'])]
+
+    # shape: if let Some(V) = MAP.get(&RUN) { BUF.push_str(V) } else { BUF.push_str(&RUN...) }   (or the match form)
+    then = els = val = lookup = None
+    if len(body) == 1 and body[0]['k'] == 'expr':
+        e = body[0]['e']
+        if e.get('k') == 'if' and e['c'].get('k') == 'let' and 'e' in e:
+            pat = e['c']['pat']
+            if pat.get('k') == 'ts' and pat['p'] == 'Some' and len(pat['e']) == 1 and pat['e'][0].get('k') == 'ident':
+                val, lookup, then, els = pat['e'][0]['n'], e['c']['e'], e['t'], e['e']
+        elif e.get('k') == 'match' and len(e['arms']) == 2:
+            for arm in e['arms']:
+                pat = arm['pat']
+                if pat.get('k') == 'ts' and pat['p'] == 'Some' and len(pat['e']) == 1 and pat['e'][0].get('k') == 'ident':
+                    val, then = pat['e'][0]['n'], arm['body']
+                elif (pat.get('k') == 'path' and pat['p'] == 'None') or pat.get('k') == 'wild':
+                    els = arm['body']
+            lookup = e['e']
+    lk = _strip(lookup) if lookup else None
+    if not (then and els and lk and lk.get('k') == 'mcall' and lk['m'] == 'get' and len(lk['args']) == 1):
+        r.undecided('%s:substitution-shape' % rname, W(lp), 'the loop body is not `if let Some(v) = MAP.get(&RUN) { append v } else { append rewritten RUN }`')
+        return r
+    r.inst('%s:lookup-key' % rname)
+    key = _strip(lk['args'][0])
+    if not sx.is_path(key, run):
+        kr = sx.render(key)
+        if any(sx.is_path(n, run) for n in sx.walk(key)):
+            r.undecided('%s:lookup-key' % rname, W(lk), 'the formal is looked up under `%s`, not under the run itself' % kr[:40])
+        else:
+            r.fail('%s:lookup-key' % rname, W(lk), 'the formal is looked up under `%s`, which is not the run being replaced' % kr[:40])
+    ta, ea = appends(then), appends(els)
+    bufs = {n['recv']['p'] for n in ta + ea}
+    r.inst('%s:then-appends-value' % rname)
+    if len(ta) == 1 and sx.is_path(_strip(ta[0]['args'][0]), val):
+        pass
+    elif len(ta) == 1 and any(sx.is_path(n, run) for n in sx.walk(ta[0]['args'][0])) and not any(sx.is_path(n, val) for n in sx.walk(ta[0]['args'][0])):
+        r.fail('%s:formal-not-substituted' % rname, W(ta[0]), 'a run that names a formal is appended as it stands instead of the actual argument bound to it')
+    elif not ta:
+        r.fail('%s:formal-dropped' % rname, W(then), 'a run that names a formal appends nothing: the actual argument is lost from the expansion')
+    else:
+        r.undecided('%s:then-appends-value' % rname, W(then), 'what is appended for a formal is not recognised')
+    r.inst('%s:else-appends-run' % rname)
+    pairs = None
+    if len(ea) == 1:
+        helpers = {n: f for n, f in pp.fns.items()}
+        pairs = _chain(ea[0]['args'][0], run, helpers)
+        if pairs is None:
+            if any(sx.is_path(n, run) for n in sx.walk(ea[0]['args'][0])):
+                r.undecided('%s:rewrite-chain' % rname, W(ea[0]), 'the text appended for an ordinary run is not a chain of literal `replace` calls on the run')
+            else:
+                r.fail('%s:text-replaced' % rname, W(ea[0]), 'what is appended for an ordinary run does not derive from the run')
+    elif not ea:
+        r.fail('%s:text-dropped' % rname, W(els), 'a run that names no formal appends nothing: the text of the macro body is lost')
+    else:
+        r.undecided('%s:else-appends-run' % rname, W(els), '%d appends for an ordinary run' % len(ea))
+    if len(bufs) > 1:
+        r.fail('%s:two-buffers' % rname, W(lp), 'substituted and ordinary runs are appended to different buffers (%s): their order is lost' % sorted(bufs))
+    if pairs is not None:
+        r.counts['rewrites'] = len(pairs)
+        have = dict(pairs)
+        for pat, rep in REWRITES.items():
+            r.inst('%s:rewrite:%r' % (rname, pat), {'pattern': pat, 'replacement': have.get(pat)})
+            if pat not in have:
+                r.fail('%s:rewrite-missing:%s' % (rname, pat.encode('unicode_escape').decode()), W(ea[0]), 'the rewrite chain no longer rewrites %r (22.5.1: -> %r)' % (pat, rep))
+        allr = dict(REWRITES)
+        allr.update(REWRITES_OPTIONAL)
+        for pat, rep in pairs:
+            if pat in allr:
+                if rep != allr[pat]:
+                    r.fail('%s:rewrite-wrong:%s' % (rname, pat.encode('unicode_escape').decode()), W(ea[0]), '%r is rewritten to %r; 22.5.1 gives %r' % (pat, rep, allr[pat]))
+            else:
+                r.undecided('%s:rewrite-unknown:%s' % (rname, pat.encode('unicode_escape').decode()), W(ea[0]), 'rewrite %r -> %r is not one the rule knows' % (pat, rep))
+        for i in range(len(pairs)):
+            for j in range(i + 1, len(pairs)):
+                r.inst()
+                if pairs[i][0] != pairs[j][0] and pairs[i][0] in pairs[j][0]:
+                    r.fail('%s:rewrite-order:%s' % (rname, pairs[j][0].encode('unicode_escape').decode()), W(ea[0]),
+                           '%r is rewritten before %r, which contains it: the longer token is destroyed before its own rewrite can apply' % (pairs[i][0], pairs[j][0]))
+    return r
+
+
 def run(ctx):
     pp = model(ctx)
     r = RuleResult('X18', 'macro-body tokeniser: identifiers outside strings are runs of their own, string literals and comments are opaque, nothing is lost (finite-state product with the 22.5.1 lexical contexts)')
     if pp.problems:
         for p in pp.problems:
             r.fail('anchor:' + p, pp.where(1), 'preprocessor model: %s (fail closed)' % p)
-        return [r]
+        return [r, RuleResult('X19', 'macro resolver substitution loop')]
     cands, res = find_tokeniser(ctx, pp)
     if len(cands) != 1:
         r.undecided('tokeniser', pp.where(1), 'no unique (&str) -> Vec<String> function iterated by the macro resolver (%d candidates): the run-splitting is not analysed' % len(cands))
-        return [r]
+        return [r, run_subst(ctx, pp, res, None)]
     name, fn = cands[0]
+    r2 = run_subst(ctx, pp, res, name)
     where = pp.where(fn['l'])
     helpers = {n: f for n, f in pp.fns.items() if n != name}
     pairs = paste_pairs(res)
@@ -689,7 +832,7 @@ def run(ctx):
         findings, stats = analyse(code, pairs)
     except Undecided as u:
         r.undecided('%s:shape' % name, where, 'the tokeniser is written outside the interpreted subset (%s): not analysed' % u)
-        return [r]
+        return [r, r2]
     r.counts.update(stats)
     r.counts['paste_pairs'] = len(pairs)
     r.inst(name, '%s: %d product states, %d transitions over %d character classes' % (name, stats['product_states'], stats['transitions'], stats['representatives']))
@@ -697,4 +840,4 @@ def run(ctx):
         r.inst()
     for key, (wit, msg) in sorted(findings.items()):
         r.fail('%s:%s' % (name, key), where, '%s — shortest macro body reaching it: %r' % (msg, wit), {'macro_body': wit})
-    return [r]
+    return [r, r2]
